@@ -1,6 +1,7 @@
 (* C05  Timers: never early, deadline order, exactly once per arming, cancel is final. *)
 From CV Require Import Base Consts Token PostAction Env Loop.
 From CVP Require Import Loop_frames Seq_lemmas Env_lemmas.
+Import ListNotations.
 Open Scope N_scope.
 
 (* the expiry loop of Poll::poll: every popped entry is due (never early), the popped entries are entries of the wheel
@@ -34,6 +35,17 @@ Theorem C05_cancelled_arming_leaves_wheel : forall e t tk c, tm_reg t = Some (tk
 Proof. intros e t tk c H Hnd. unfold timer_unregister. rewrite H. cbn. apply wh_cancel_removes. exact Hnd. Qed.
 Theorem C05_cancel_keeps_other_armings : forall w c e, In e (wh_heap w) -> w_ctr e <> c -> In e (wh_heap (wh_cancel w c)).
 Proof. exact wh_cancel_keeps. Qed.
+
+(* met by a concrete wheel: three armings (deadlines 9, 2, 5; counters 0, 1, 2), now = 5: the entries with deadlines 2 and 5 are popped,
+   in that order, 9 stays; and unregistering the timer armed with counter 2 removes exactly that entry *)
+Example C05_nonvacuous :
+  let hp := [mkW 9 (mkTok 2 0 0) 0; mkW 2 (mkTok 0 0 0) 1; mkW 5 (mkTok 1 0 0) 2] in
+  let e0 := mkEnv [] (mkWheel hp 3) (fun _ => 0) (fun _ => None) (fun _ => None) in
+  let tm := mkTimer (Some (mkTok 1 0 0, 2)) (Some 5%Z) true in
+  wh_expire (length hp) hp 5%Z = ([mkW 2 (mkTok 0 0 0) 1; mkW 5 (mkTok 1 0 0) 2], [mkW 9 (mkTok 2 0 0) 0]) /\
+  NoDup (map w_ctr (wh_heap (whl e0))) /\
+  wh_heap (whl (snd (timer_unregister e0 tm))) = [mkW 9 (mkTok 2 0 0) 0; mkW 2 (mkTok 0 0 0) 1].
+Proof. cbv zeta. split; [vm_compute; reflexivity|split; [|vm_compute; reflexivity]]. repeat constructor; cbn; intuition discriminate. Qed.
 
 (* KNOWN FINDING F5 (recorded, not repaired): the whole-history statement "each arming fires exactly once, never early"
    is refuted by re-arming a timer from another callback while its expiry is already in the batch: the model reproduces
